@@ -53,6 +53,7 @@ def run_property(pm, tier, seed, only_cfg=None, only_case=None, jobs=None):
     agg = {'programs': 0, 'obligations': 0, 'discharged': 0, 'unknown': 0, 'paths': 0, 'steps': 0, 'validated': 0, 'val_mismatch': 0,
            'sat_confirmed': 0, 'sat_unconfirmed': 0, 'compile_fail': 0, 'solver_s': 0.0, 'queries': 0, 'mem_checked': 0, 'cases_ok': 0,
            'structural': 0, 'depth_max': 0, 'gxx_diff': 0}
+    mem_unconfirmed = []
     funcs = set(); intr = set(); stubs = set(); libm = set(); samples = []; cfgkeys = []; compile_matrix = {}; per_cfg = {}
     opts_base = {'seed': seed, 'timeout': getattr(pm, 'TIMEOUT', {}).get(tier, 10), 'nval': 2 if tier == 'quick' else 3}
     opts_base.update(getattr(pm, 'OPTS', {}))
@@ -81,8 +82,10 @@ def run_property(pm, tier, seed, only_cfg=None, only_case=None, jobs=None):
             else: broken.append(f'{c.id}@{cfg.key()}: harness does not compile: {cf["msg"][:200]}')
         if out.get('native_err'): broken.append(f'native build failed @{cfg.key()}: ' + out['native_err'][-300:])
         agg['validated'] += out['validated']; agg['val_mismatch'] += len(out['val_mismatch']); agg['gxx_diff'] += len(out.get('gxx_diff', []))
+        memcases = {r['id'] for r in out['results'] if r.get('mem')}
         for vm in out['val_mismatch']:
             c = byid[vm['id']]
+            if vm['what'] == 'native crash' and vm['id'] in memcases: continue   # the encoder predicted the memory fault
             # a mismatch on a case whose result is anyway a (known) violation is expected: UNDEF outputs are skipped, so a real mismatch = encoder bug
             broken.append(f'{vm["id"]}@{cfg.key()}: ENCODING/NATIVE MISMATCH {vm["what"]} {vm.get("detail", "")[:200]}')
         for r in out['results']:
@@ -125,13 +128,17 @@ def run_property(pm, tier, seed, only_cfg=None, only_case=None, jobs=None):
                 agg['mem_checked'] += 1
                 verdict = pm.on_mem(c, cfg, mv) if hasattr(pm, 'on_mem') else 'violation'
                 if verdict == 'ignore': continue
+                if not mv.get('confirmed'):
+                    inconcl.append({'case': c.id, 'cfg': cfg.key(), 'why': f'memory finding not reproduced natively (reported separately, no alarm): {mv["kind"]}: {mv["what"][:160]}'})
+                    mem_unconfirmed.append({'case': c.id, 'cfg': cfg.key(), 'kind': mv['kind'], 'what': mv['what'][:200]})
+                    continue
                 kf = match_known(known, prop, c.id, cfg.key(), 'mem:' + mv['kind'])
                 if kf: known_hit.setdefault(kf['id'], [kf, 0]); known_hit[kf['id']][1] += 1
                 elif ('mem', c.id) not in seen:
                     seen.add(('mem', c.id))
                     inp = runner.model_inputs(c, mv.get('model') or {})
                     d = write_replay(prop, c, cfg, 'memory', mv, out.get('src'), batch.hexinp(inp))
-                    viol.append((c.id, cfg.key(), f'memory {mv["kind"]}: {mv["what"][:200]}', d))
+                    viol.append((c.id, cfg.key(), f'memory {mv["kind"]}: {mv["what"][:160]} [{mv.get("why", "")[:120]}]', d))
         if not os.environ.get('FSV_KEEP'): shutil.rmtree(os.path.join(build.WORK, f'{prop}_{tier}', cfg.key()), ignore_errors=True)
     # C06-style cross-configuration compile matrix is handled by the property module
     if hasattr(pm, 'finalize'):
@@ -163,6 +170,7 @@ def run_property(pm, tier, seed, only_cfg=None, only_case=None, jobs=None):
         'compile_failures': agg['compile_fail'], 'compile_matrix': compile_matrix,
         'counterexamples_replayed_confirmed': agg['sat_confirmed'], 'counterexamples_not_reproduced': agg['sat_unconfirmed'],
         'encoder_native_mismatches': agg['val_mismatch'], 'gxx_build_differs': agg['gxx_diff'],
+        'memory_findings_unconfirmed': mem_unconfirmed[:50],
         'known_findings_hit': {k: v[1] for k, v in known_hit.items()},
         'bounds': pm.bounds(tier) if hasattr(pm, 'bounds') else '', 'explanation': getattr(pm, 'EXPLANATION', ''),
         'max_rss_kb': resource.getrusage(resource.RUSAGE_CHILDREN).ru_maxrss,
